@@ -20,8 +20,8 @@ CFG = {
         "Leptos.Owner.C08_effect_rerun_releases",
         "Leptos.Owner.C08_with_cleanup_releases",
         "Leptos.Owner.C08_watch_handler_unowned",
-        "Leptos.Owner.C08_watch_handler_owned_full_false",
-        "Leptos.Owner.C08_watch_handler_owned_partial",
+        "Leptos.Owner.C08_watch_handler_owned",
+        "Leptos.Owner.C08_watch_handler_released",
         "Leptos.Owner.C08_frame",
         "Leptos.Owner.C08_frame_owners",
         "Leptos.Owner.C08_frame_items",
